@@ -20,11 +20,12 @@ var MemoryGuardLimit uint64 = 12 << 30
 // operating system has to kill it, and says what was running.
 func StartMemoryGuard(prop string) {
 	go func() {
-		var ms runtime.MemStats
 		for {
-			time.Sleep(300 * time.Millisecond)
-			runtime.ReadMemStats(&ms)
-			if ms.HeapAlloc > MemoryGuardLimit {
+			time.Sleep(200 * time.Millisecond)
+			rss := residentBytes() // resident set: heap and goroutine stacks alike, and no stop-the-world
+			if rss > MemoryGuardLimit {
+				var ms runtime.MemStats
+				ms.HeapAlloc = rss
 				act, _ := Activity.Load().(string)
 				os.MkdirAll(filepath.Join(VerifRoot(), "replays"), 0o755)
 				p := filepath.Join(VerifRoot(), "replays", "runaway-"+prop+".txt")
@@ -34,4 +35,17 @@ func StartMemoryGuard(prop string) {
 			}
 		}
 	}()
+}
+
+// residentBytes reads the resident set size of this process from /proc/self/statm (0 if unavailable).
+func residentBytes() uint64 {
+	b, err := os.ReadFile("/proc/self/statm")
+	if err != nil {
+		return 0
+	}
+	var size, resident uint64
+	if _, err := fmt.Sscanf(string(b), "%d %d", &size, &resident); err != nil {
+		return 0
+	}
+	return resident * uint64(os.Getpagesize())
 }
